@@ -716,7 +716,7 @@ func (rn *runner) readAll(phase string, prime bool) {
 				o.Extra = rn.classify(m, &sh.Shape, sh.field, sh.kind, o.Rows, o.Want)
 			}
 			// (an answer that is exactly "expected + dropped rows" is a persistent leak, not worth asking again)
-			if !o.OK && attempt < 2 && o.Extra != "dropped-only" {
+			if !o.OK && attempt < 4 && o.Extra != "dropped-only" {
 				// ask again: an answer that is wrong once and right on the immediate retry is recorded as transient
 				if attempt == 0 {
 					o.First = append([]string{}, o.Rows...)
